@@ -303,7 +303,17 @@ func LockStep(p *Prog, spec LockStepSpec, sums map[string]Summary) []LockStepRes
 					record(last, "back-edge", false, "no consumed-bytes counter advances together with the cursor")
 				}
 				if dOff != nil && spec.MinAdvance > 0 {
-					record(last, "progress", dOff.konst >= spec.MinAdvance, fmt.Sprintf("an iteration may consume fewer than %d byte(s): advance %s", spec.MinAdvance, dOff))
+					// constant part plus the symbolic parts that are known to be ≥ 1 (e.g. the count of a header helper); all parts ≥ 0
+					lower, nonneg := dOff.konst, true
+					for _, v := range dOff.vals {
+						switch {
+						case bnd.ValueAtLeast(v, 1, last):
+							lower++
+						case !bnd.ValueAtLeast(v, 0, last):
+							nonneg = false
+						}
+					}
+					record(last, "progress", nonneg && lower >= spec.MinAdvance, fmt.Sprintf("an iteration may consume fewer than %d byte(s): advance %s", spec.MinAdvance, dOff))
 				}
 				continue
 			}
